@@ -14,6 +14,7 @@ import (
 	"flag"
 	"fmt"
 	"os"
+	"path/filepath"
 	"sort"
 	"strings"
 	"time"
@@ -24,7 +25,8 @@ import (
 
 	"github.com/Flowpack/prunner"
 	"github.com/Flowpack/prunner/definition"
-	"github.com/Flowpack/prunner/test"
+	"github.com/Flowpack/prunner/store"
+	"github.com/Flowpack/prunner/taskctl"
 
 	"verifharness/control"
 	"verifharness/hutil"
@@ -154,6 +156,17 @@ func genPipe(rng *hutil.Rng, name int, prof string) PipeCfg {
 	}
 	p.Continue = rng.Chance(1, 3)
 	p.Tasks = genTasks(rng, prof)
+	retNum := 1
+	if prof == "retain" {
+		retNum = 4
+	}
+	if rng.Chance(retNum, 6) {
+		p.RetC = 1 + rng.Intn(3)
+	}
+	if rng.Chance(retNum, 6) {
+		// ages of preloaded jobs are even numbers of ticks (hours), periods odd: never closer than one hour to a threshold
+		p.RetP = 1 + 2*rng.Intn(4)
+	}
 	return p
 }
 
@@ -260,6 +273,36 @@ type JobSnap struct {
 	TimeOrderOK bool `json:"time_ok"`
 }
 
+type PTaskSnap struct {
+	Name    int    `json:"name"`
+	Deps    []int  `json:"deps"`
+	Allow   bool   `json:"allow"`
+	Empty   bool   `json:"empty"`
+	Script  int    `json:"script"`
+	Status  string `json:"status"`
+	Start   bool   `json:"start"`
+	End     bool   `json:"end"`
+	Skipped bool   `json:"skipped"`
+	Exit    int    `json:"exit"`
+	Errored bool   `json:"errored"`
+	Err     string `json:"err"`
+}
+
+type PJobSnap struct {
+	ID        int         `json:"id"`
+	Pipe      int         `json:"pipe"`
+	Completed bool        `json:"completed"`
+	Canceled  bool        `json:"canceled"`
+	Age       int         `json:"age"` // only for preloaded jobs: age in ticks
+	Start     bool        `json:"start"`
+	End       bool        `json:"end"`
+	Vars      string      `json:"vars"`
+	VN        int         `json:"vn"`
+	User      int         `json:"user"`
+	LastErr   string      `json:"lasterr"`
+	Tasks     []PTaskSnap `json:"tasks"`
+}
+
 type PipeSnap struct {
 	P           int  `json:"p"`
 	Schedulable bool `json:"schedulable"`
@@ -271,6 +314,10 @@ type Snap struct {
 	Wait  map[string][]int `json:"wait"`
 	Pipes []PipeSnap       `json:"pipes"`
 	Req   bool             `json:"req"`
+	Logs  []int            `json:"logs"`
+	Store []PJobSnap       `json:"store"` // content of the store (only after events that write or load it), nil otherwise
+	// real-time strings of the reported jobs (monitor only, not compared with the model)
+	Times map[string][]string `json:"times,omitempty"`
 }
 
 type Step struct {
@@ -278,6 +325,8 @@ type Step struct {
 	Ev   Ev     `json:"ev"`
 	Res  string `json:"res"`
 	Snap Snap   `json:"snap"`
+	// Skip: the snapshot was taken after a following automatic event as well (Shutdown returned): it is not compared
+	Skip bool `json:"skip,omitempty"`
 }
 
 // ---------- one history ----------
@@ -298,6 +347,18 @@ type hist struct {
 	prof      string
 	steps     int
 	failure   string
+	// persistence
+	dir       string
+	st        *store.JsonDataStore
+	ost       *taskctl.FileOutputStore
+	readStore bool
+	// shutdown
+	shutting     bool
+	forced       bool
+	shutDone     chan error
+	shutCancel   context.CancelFunc
+	shutReturned bool
+	restarts     int
 }
 
 func errKind(err error) string {
@@ -342,8 +403,11 @@ func (x *hist) snapshot() Snap {
 				js.Vars = "reserved"
 			} else {
 				js.Vars = "plain"
-				if v, ok := j.Variables["v"].(int); ok {
+				switch v := j.Variables["v"].(type) {
+				case int:
 					js.VN = v
+				case float64:
+					js.VN = int(v)
 				}
 			}
 		}
@@ -425,7 +489,102 @@ func (x *hist) snapshot() Snap {
 		s.Pipes = append(s.Pipes, PipeSnap{P: num(pi.Pipeline), Schedulable: pi.Schedulable, Running: pi.Running})
 	}
 	s.Req = x.r.VerifTakePersistRequest()
+	s.Logs = []int{}
+	if ents, err := os.ReadDir(filepath.Join(x.dir, "logs")); err == nil {
+		for _, e := range ents {
+			if jh := x.h.ByUUID[e.Name()]; jh != nil {
+				s.Logs = append(s.Logs, jh.Idx)
+			} else {
+				s.Logs = append(s.Logs, -1)
+			}
+		}
+	}
+	sort.Ints(s.Logs)
+	if x.readStore {
+		x.readStore = false
+		s.Store = x.storeSnap()
+	}
+	s.Times = map[string][]string{}
+	x.r.IterateJobs(func(j *prunner.PipelineJob) {
+		jh := x.h.ByUUID[j.ID.String()]
+		if jh == nil {
+			return
+		}
+		ts := []string{j.Created.Format(time.RFC3339Nano), tstr(j.Start), tstr(j.End)}
+		for _, t := range j.Tasks {
+			ts = append(ts, tstr(t.Start), tstr(t.End))
+			if t.Error != nil {
+				ts = append(ts, t.Error.Error())
+			}
+		}
+		if j.LastError != nil {
+			ts = append(ts, j.LastError.Error())
+		}
+		s.Times[fmt.Sprint(jh.Idx)] = ts
+	})
 	return s
+}
+
+func tstr(t *time.Time) string {
+	if t == nil {
+		return ""
+	}
+	return t.Format(time.RFC3339Nano)
+}
+
+func strErrKind(s *string) string {
+	if s == nil || *s == "" {
+		return "none"
+	}
+	return errKind(errors.New(*s))
+}
+
+func (x *hist) storeSnap() []PJobSnap {
+	out := []PJobSnap{}
+	data, err := x.st.Load()
+	if err != nil {
+		x.failure = "store cannot be loaded: " + err.Error()
+		return out
+	}
+	for _, pj := range data.Jobs {
+		jh := x.h.ByUUID[pj.ID.String()]
+		if jh == nil {
+			x.failure = "store holds a job unknown to the harness: " + pj.ID.String()
+			continue
+		}
+		ps := PJobSnap{ID: jh.Idx, Pipe: num(pj.Pipeline), Completed: pj.Completed, Canceled: pj.Canceled, Start: pj.Start != nil, End: pj.End != nil,
+			User: num("u" + strings.TrimPrefix(pj.User, "u")), LastErr: strErrKind(pj.LastError), Tasks: []PTaskSnap{}}
+		switch {
+		case pj.Variables == nil:
+			ps.Vars = "none"
+		default:
+			if _, ok := pj.Variables["__jobID"]; ok {
+				ps.Vars = "reserved"
+			} else {
+				ps.Vars = "plain"
+				switch v := pj.Variables["v"].(type) {
+				case int:
+					ps.VN = v
+				case float64:
+					ps.VN = int(v)
+				}
+			}
+		}
+		for _, t := range pj.Tasks {
+			pt := PTaskSnap{Name: num(t.Name), Allow: t.AllowFailure, Empty: len(t.Script) == 0, Status: t.Status, Start: t.Start != nil, End: t.End != nil,
+				Skipped: t.Skipped, Exit: int(t.ExitCode), Errored: t.Errored, Err: strErrKind(t.Error), Deps: []int{}}
+			for _, d := range t.DependsOn {
+				pt.Deps = append(pt.Deps, num(d))
+			}
+			if len(t.Script) > 0 {
+				fmt.Sscanf(t.Script[0], "s%d", &pt.Script)
+			}
+			ps.Tasks = append(ps.Tasks, pt)
+		}
+		out = append(out, ps)
+	}
+	sort.Slice(out, func(a, b int) bool { return out[a].ID < out[b].ID })
+	return out
 }
 
 func (x *hist) quiesce() bool {
@@ -444,7 +603,7 @@ type cand struct {
 
 func (x *hist) weights() map[string]int {
 	w := map[string]int{"schedule": 10, "cancel": 3, "tick": 3, "fire": 6, "reload": 1, "iter": 8, "visit": 10, "runbegin": 8, "runend": 6,
-		"deliver": 6, "return": 8, "badcancel": 1, "badschedule": 1}
+		"deliver": 6, "return": 8, "badcancel": 1, "badschedule": 1, "save": 1, "shutdown": 0, "force": 0}
 	switch x.prof {
 	case "admit":
 		w["schedule"], w["cancel"], w["runend"] = 16, 5, 4
@@ -458,6 +617,12 @@ func (x *hist) weights() map[string]int {
 		w["schedule"], w["runend"], w["cancel"] = 5, 9, 1
 	case "fifo":
 		w["schedule"], w["cancel"], w["reload"] = 14, 4, 0
+	case "retain":
+		w["save"], w["reload"], w["runend"], w["schedule"] = 5, 2, 10, 12
+	case "restart":
+		w["save"] = 4
+	case "shutdown":
+		w["shutdown"], w["force"], w["save"] = 2, 3, 2
 	}
 	return w
 }
@@ -548,6 +713,13 @@ func (x *hist) candidates(drain bool) []cand {
 	if len(x.sets) > 1 {
 		cs = append(cs, cand{Ev{T: "reload", DS: x.rng.Intn(len(x.sets))}, w["reload"], nil})
 	}
+	cs = append(cs, cand{Ev{T: "save"}, w["save"], nil})
+	if !x.shutting {
+		cs = append(cs, cand{Ev{T: "shutdown"}, w["shutdown"], nil})
+	} else if !x.forced && !x.shutReturned && x.anyRunning() {
+		// the deadline of Shutdown only matters while it still polls a running pipeline
+		cs = append(cs, cand{Ev{T: "force"}, w["force"], nil})
+	}
 	return cs
 }
 
@@ -612,6 +784,21 @@ func (x *hist) apply(c cand) string {
 		for _, p := range x.sets[ev.DS].Pipes {
 			x.pipesSeen[p.Name] = true
 		}
+	case "save":
+		x.r.SaveToStore()
+		x.readStore = true
+	case "restart":
+		x.doRestart()
+	case "shutdown":
+		x.shutting = true
+		ctx, cancel := context.WithCancel(context.Background())
+		x.shutCancel = cancel
+		x.shutDone = make(chan error, 1)
+		r := x.r
+		go func() { x.shutDone <- r.Shutdown(ctx) }()
+	case "force":
+		x.forced = true
+		x.shutCancel()
 	case "iter":
 		jh := c.parked.Job
 		jh.Todo = map[string]bool{}
@@ -682,7 +869,9 @@ func (x *hist) run(maxSteps int) {
 			// timers stopped by the runner (replace, cancel) are not fireable any more
 			if c.ev.T == "fire" {
 				stopped := false
-				_ = x.r.ReadJob(uuid.FromStringOrNil(x.h.Jobs[c.ev.ID].UUID), func(j *prunner.PipelineJob) { stopped = !j.VerifHasTimer() })
+				if err := x.r.ReadJob(uuid.FromStringOrNil(x.h.Jobs[c.ev.ID].UUID), func(j *prunner.PipelineJob) { stopped = !j.VerifHasTimer() }); err != nil {
+					stopped = true // the job is gone (removed by a save): its timer was stopped
+				}
 				if stopped {
 					x.armed[c.ev.ID] = false
 					continue
@@ -693,9 +882,7 @@ func (x *hist) run(maxSteps int) {
 				return
 			}
 			x.fillTodo(c)
-			st := Step{Kind: "step", Ev: c.ev, Res: res, Snap: x.snapshot()}
-			hutil.JSONLine(x.out, st)
-			x.steps++
+			x.emit(c.ev, res)
 			if x.failure != "" {
 				return
 			}
@@ -703,11 +890,124 @@ func (x *hist) run(maxSteps int) {
 	}
 }
 
+func (x *hist) newRunner(defs *definition.PipelinesDef) error {
+	ctx, cancel := context.WithCancel(context.Background())
+	cancel() // no persist loop: saves are explicit events
+	r, err := prunner.NewPipelineRunner(ctx, defs, x.h.CreateTaskRunner, x.st, x.ost)
+	if err != nil {
+		return err
+	}
+	r.ShutdownPollInterval = time.Millisecond
+	x.r = r
+	// wait until the persist loop goroutine (started with an already canceled context) has ended
+	_ = x.h.Quiesce(2 * time.Second)
+	return nil
+}
+
+func (x *hist) anyRunning() bool {
+	running := false
+	x.r.IterateJobs(func(j *prunner.PipelineJob) {
+		if j.Start != nil && !j.Completed && !j.Canceled {
+			running = true
+		}
+	})
+	return running
+}
+
+func (x *hist) canRestart() bool {
+	return x.quietForShutdown() && (!x.shutting || x.shutReturned)
+}
+
+func (x *hist) doRestart() {
+	if err := x.newRunner(x.sets[x.cur].toDefs()); err != nil {
+		x.failure = "restart: " + err.Error()
+		return
+	}
+	x.restarts++
+	x.shutting, x.forced, x.shutReturned = false, false, false
+	x.armed = map[int]bool{}
+	x.alive = map[int]bool{}
+	x.readStore = true
+}
+
+// quietForShutdown: nothing holds the runner's wait group any more, as far as the harness can see
+func (x *hist) quietForShutdown() bool {
+	for _, p := range x.h.ParkedList() {
+		_ = p
+		return false
+	}
+	for _, a := range x.alive {
+		if a {
+			return false
+		}
+	}
+	return true
+}
+
+// emit records the step for an executed event. While a Shutdown call is in progress it first finds out whether Shutdown
+// returns now: it must return exactly when no pipeline is running any more (or it was forced) and nothing holds the wait
+// group. The Shutdown goroutine cannot be parked, so the event and the return are observed together: the event's own
+// snapshot is marked as not comparable and a synthetic shutdown_return step follows.
+func (x *hist) emit(ev Ev, res string) {
+	if x.shutting && !x.shutReturned {
+		running := false
+		x.r.IterateJobs(func(j *prunner.PipelineJob) {
+			if j.Start != nil && !j.Completed && !j.Canceled {
+				running = true
+			}
+		})
+		if x.quietForShutdown() && (x.forced || !running) {
+			select {
+			case <-x.shutDone:
+			case <-time.After(5 * time.Second):
+				x.failure = "Shutdown did not return although no pipeline is running and nothing is pending"
+				return
+			}
+			x.shutReturned = true
+			if !x.quiesce() {
+				return
+			}
+			hutil.JSONLine(x.out, Step{Kind: "step", Ev: ev, Res: res, Snap: x.snapshot(), Skip: true})
+			x.readStore = true
+			hutil.JSONLine(x.out, Step{Kind: "step", Ev: Ev{T: "shutdown_return"}, Res: "none", Snap: x.snapshot()})
+			x.steps += 2
+			return
+		}
+		select {
+		case <-x.shutDone:
+			x.shutReturned = true
+			x.failure = "Shutdown returned although a pipeline is still running or an operation is pending"
+		case <-time.After(3 * time.Millisecond):
+		}
+	}
+	hutil.JSONLine(x.out, Step{Kind: "step", Ev: ev, Res: res, Snap: x.snapshot()})
+	x.steps++
+}
+
 // findCand maps a recorded event to an enabled candidate of the current state (nil: not enabled, the event is skipped)
 func (x *hist) findCand(ev Ev) *cand {
 	kinds := map[string]control.Kind{"iter": control.KTop, "visit": control.KVisit, "runbegin": control.KRunEntry, "runend": control.KRunBody,
 		"deliver": control.KCancel, "return": control.KReturn}
 	switch ev.T {
+	case "shutdown_return":
+		return nil // synthetic: emitted by the harness when Shutdown returns
+	case "save":
+		return &cand{ev: ev}
+	case "shutdown":
+		if !x.shutting {
+			return &cand{ev: ev}
+		}
+		return nil
+	case "force":
+		if x.shutting && !x.forced && !x.shutReturned && x.anyRunning() {
+			return &cand{ev: ev}
+		}
+		return nil
+	case "restart":
+		if x.canRestart() {
+			return &cand{ev: ev}
+		}
+		return nil
 	case "schedule", "cancel", "tick":
 		return &cand{ev: ev}
 	case "reload":
@@ -748,7 +1048,9 @@ func (x *hist) replay(events []Ev) {
 		}
 		if c.ev.T == "fire" {
 			stopped := false
-			_ = x.r.ReadJob(uuid.FromStringOrNil(x.h.Jobs[c.ev.ID].UUID), func(j *prunner.PipelineJob) { stopped = !j.VerifHasTimer() })
+			if err := x.r.ReadJob(uuid.FromStringOrNil(x.h.Jobs[c.ev.ID].UUID), func(j *prunner.PipelineJob) { stopped = !j.VerifHasTimer() }); err != nil {
+				stopped = true
+			}
 			if stopped {
 				x.armed[c.ev.ID] = false
 				continue
@@ -759,8 +1061,7 @@ func (x *hist) replay(events []Ev) {
 			return
 		}
 		x.fillTodo(*c)
-		hutil.JSONLine(x.out, Step{Kind: "step", Ev: c.ev, Res: res, Snap: x.snapshot()})
-		x.steps++
+		x.emit(c.ev, res)
 		if x.failure != "" {
 			return
 		}
@@ -768,43 +1069,221 @@ func (x *hist) replay(events []Ev) {
 }
 
 type replayFile struct {
-	Sets   []DefSet `json:"sets"`
-	Events []Ev     `json:"events"`
+	Sets   []DefSet   `json:"sets"`
+	Pre    []PJobSnap `json:"pre"`
+	Events []Ev       `json:"events"`
 }
 
-func runHistory(out *os.File, hid int, seed uint64, prof string, maxSteps int, rp *replayFile) (string, int) {
+// genPreload invents the content of the store left behind by an earlier run: finished, failed and canceled jobs of
+// various ages, and leftovers of a crash (running / waiting jobs)
+func genPreload(rng *hutil.Rng, ds DefSet, prof string) []PJobSnap {
+	var n int
+	switch prof {
+	case "retain":
+		n = 2 + rng.Intn(6)
+	case "restart", "shutdown":
+		n = rng.Intn(4)
+	default:
+		if rng.Chance(1, 4) {
+			n = 1 + rng.Intn(3)
+		}
+	}
+	pre := []PJobSnap{}
+	age := 2 * (n + 2)
+	for i := 0; i < n && len(ds.Pipes) > 0; i++ {
+		p := ds.Pipes[rng.Intn(len(ds.Pipes))]
+		pipe := p.Name
+		if rng.Chance(1, 10) {
+			pipe = 98 // a pipeline that is not defined any more
+		}
+		pj := PJobSnap{ID: i, Pipe: pipe, Age: age, Vars: []string{"none", "plain"}[rng.Intn(2)], VN: rng.Intn(5), User: rng.Intn(3), LastErr: "none", Tasks: []PTaskSnap{}}
+		age -= 2 * rng.Intn(2) // ages are even, newest last, equal ages possible only through the same value (ranking then follows the id)
+		if age < 2 {
+			age = 2
+		}
+		kind := rng.Pick([]int{6, 2, 2, 1, 1})
+		for _, t := range p.Tasks {
+			pt := PTaskSnap{Name: t.Name, Deps: append([]int{}, t.Deps...), Allow: t.Allow, Empty: t.Empty, Script: t.Script, Status: "done", Start: !t.Empty, End: !t.Empty, Exit: -1, Err: "none"}
+			if t.Empty {
+				pt.Script = 0
+			}
+			pj.Tasks = append(pj.Tasks, pt)
+		}
+		switch kind {
+		case 0: // done
+			pj.Completed, pj.Start, pj.End = true, true, true
+		case 1: // failed
+			pj.Completed, pj.Start, pj.End, pj.LastErr = true, true, true, "fail"
+			if len(pj.Tasks) > 0 {
+				pj.Tasks[0].Status, pj.Tasks[0].Errored, pj.Tasks[0].Err, pj.Tasks[0].Exit, pj.Tasks[0].End = "error", true, "fail", 2, false
+				for k := 1; k < len(pj.Tasks); k++ {
+					pj.Tasks[k].Status, pj.Tasks[k].Start, pj.Tasks[k].End = "waiting", false, false
+				}
+			}
+		case 2: // canceled while running
+			pj.Completed, pj.Canceled, pj.Start, pj.End, pj.LastErr = true, true, true, true, "canceled"
+			for k := range pj.Tasks {
+				pj.Tasks[k].Status, pj.Tasks[k].End = "canceled", false
+			}
+		case 3: // was running when the process died
+			pj.Start = true
+			for k := range pj.Tasks {
+				pj.Tasks[k].Status, pj.Tasks[k].End = []string{"running", "waiting", "done"}[rng.Intn(3)], false
+				if pj.Tasks[k].Status == "waiting" {
+					pj.Tasks[k].Start = false
+				}
+			}
+		case 4: // was waiting when the process died
+			for k := range pj.Tasks {
+				pj.Tasks[k].Status, pj.Tasks[k].Start, pj.Tasks[k].End = "waiting", false, false
+			}
+		}
+		pre = append(pre, pj)
+	}
+	// ages must be non-increasing with the id (creation order)
+	for i := 1; i < len(pre); i++ {
+		if pre[i].Age > pre[i-1].Age {
+			pre[i].Age = pre[i-1].Age
+		}
+	}
+	return pre
+}
+
+func errFromKind(k string) *string {
+	var s string
+	switch k {
+	case "canceled":
+		s = context.Canceled.Error()
+	case "fail":
+		s = "exit status 2 (preloaded)"
+	case "graph":
+		s = "building execution graph: cycle detected"
+	default:
+		return nil
+	}
+	return &s
+}
+
+func (x *hist) writePreload(pre []PJobSnap) error {
+	data := &store.PersistedData{}
+	now := time.Now()
+	for k, pj := range pre {
+		id, _ := uuid.NewV4()
+		jh := x.h.Accepted(id.String(), pname(pj.Pipe))
+		if jh.Idx != pj.ID {
+			return fmt.Errorf("preload index mismatch")
+		}
+		// strictly increasing creation times in id order, also for equal ages
+		created := now.Add(-time.Duration(pj.Age)*tick + time.Duration(k)*time.Second)
+		p := store.PersistedJob{ID: id, Pipeline: pname(pj.Pipe), Completed: pj.Completed, Canceled: pj.Canceled, Created: created,
+			User: fmt.Sprintf("u%d", pj.User), LastError: errFromKind(pj.LastErr)}
+		if pj.Vars == "plain" {
+			p.Variables = map[string]interface{}{"v": pj.VN}
+		}
+		if pj.Start {
+			t := created.Add(time.Second)
+			p.Start = &t
+		}
+		if pj.End {
+			t := created.Add(2 * time.Second)
+			p.End = &t
+		}
+		for _, t := range pj.Tasks {
+			pt := store.PersistedTask{Name: tname(t.Name), AllowFailure: t.Allow, Status: t.Status, Skipped: t.Skipped, ExitCode: int16(t.Exit),
+				Errored: t.Errored, Error: errFromKind(t.Err)}
+			if !t.Empty {
+				pt.Script = []string{fmt.Sprintf("s%d", t.Script)}
+			}
+			for _, d := range t.Deps {
+				pt.DependsOn = append(pt.DependsOn, tname(d))
+			}
+			if t.Start {
+				ts := created.Add(time.Second)
+				pt.Start = &ts
+			}
+			if t.End {
+				te := created.Add(2 * time.Second)
+				pt.End = &te
+			}
+			p.Tasks = append(p.Tasks, pt)
+		}
+		data.Jobs = append(data.Jobs, p)
+		x.created[jh.Idx] = -pj.Age
+		// a log directory for some of them
+		if pj.Start {
+			if w, err := x.ost.Writer(id.String(), "t00", "stdout"); err == nil {
+				_ = w.Close()
+			}
+		}
+	}
+	if len(pre) == 0 {
+		return nil
+	}
+	return x.st.Save(data)
+}
+
+func runHistory(out *os.File, hid int, seed uint64, prof string, maxSteps int, rp *replayFile, scratch string) (string, int) {
 	rng := hutil.NewRng(seed)
 	sets := genDefSets(rng, prof)
+	pre := genPreload(rng, sets[0], prof)
 	if rp != nil {
 		sets = rp.Sets
+		pre = rp.Pre
 	}
 	h := control.New()
 	defer h.Close()
-	ctx, cancel := context.WithCancel(context.Background())
-	cancel() // no persist loop: saves are explicit events
-	r, err := prunner.NewPipelineRunner(ctx, sets[0].toDefs(), h.CreateTaskRunner, nil, test.NewMockOutputStore())
+	dir := filepath.Join(scratch, fmt.Sprintf("h%d-%d", os.Getpid(), hid))
+	_ = os.RemoveAll(dir)
+	defer os.RemoveAll(dir)
+	st, err := store.NewJSONDataStore(dir)
 	if err != nil {
 		return err.Error(), 0
 	}
-	x := &hist{h: h, r: r, rng: rng, sets: sets, created: map[int]int{}, delay: map[int]int{}, armed: map[int]bool{}, alive: map[int]bool{},
-		pipesSeen: map[int]bool{}, out: out, prof: prof}
+	ost, err := taskctl.NewOutputStore(filepath.Join(dir, "logs"))
+	if err != nil {
+		return err.Error(), 0
+	}
+	h.OutputStore = ost
+	x := &hist{h: h, rng: rng, sets: sets, created: map[int]int{}, delay: map[int]int{}, armed: map[int]bool{}, alive: map[int]bool{},
+		pipesSeen: map[int]bool{}, out: out, prof: prof, dir: dir, st: st, ost: ost}
+	if err := x.writePreload(pre); err != nil {
+		return err.Error(), 0
+	}
+	if err := x.newRunner(sets[0].toDefs()); err != nil {
+		return err.Error(), 0
+	}
 	for _, p := range sets[0].Pipes {
 		x.pipesSeen[p.Name] = true
 	}
-	hutil.JSONLine(out, map[string]interface{}{"kind": "begin", "hid": hid, "seed": seed, "profile": prof, "sets": sets})
+	for _, pj := range pre {
+		x.pipesSeen[pj.Pipe] = true
+	}
+	hutil.JSONLine(out, map[string]interface{}{"kind": "begin", "hid": hid, "seed": seed, "profile": prof, "sets": sets, "pre": pre})
 	if rp != nil {
 		x.replay(rp.Events)
 	} else {
 		x.run(maxSteps)
+		if x.failure == "" && (prof == "restart" || (prof == "retain" && rng.Chance(1, 2))) && x.canRestart() {
+			// a new process on the same store, then some more activity
+			c := cand{ev: Ev{T: "restart"}}
+			res := x.apply(c)
+			if x.quiesce() {
+				x.emit(c.ev, res)
+				x.run(maxSteps / 3)
+			}
+		}
 	}
 	// let everything that is still parked end, so that no goroutine leaks into the next history
+	if x.shutting && !x.forced && x.shutCancel != nil {
+		x.shutCancel()
+	}
 	for k := 0; k < 2000; k++ {
 		ps := h.ParkedList()
 		if len(ps) == 0 {
 			break
 		}
 		h.Release(ps[0], control.Outcome{})
-		_ = h.Quiesce(2 * time.Second)
+		_ = h.Quiesce(2*time.Second, "PipelineRunner).Shutdown(")
 	}
 	hutil.JSONLine(out, map[string]interface{}{"kind": "end", "hid": hid, "steps": x.steps, "failure": x.failure})
 	return x.failure, x.steps
@@ -818,6 +1297,7 @@ func main() {
 	maxSteps := flag.Int("steps", 60, "max events per history before the drain")
 	only := flag.Int("hid", -1, "only this history")
 	replay := flag.String("replay", "", "replay the events of this file (JSON: sets, events) instead of generating")
+	scratch := flag.String("dir", os.TempDir(), "scratch directory for stores and logs")
 	flag.Parse()
 	out := os.Stdout
 	if *outp != "" {
@@ -838,7 +1318,7 @@ func main() {
 		if err := json.Unmarshal(b, &rp); err != nil {
 			panic(err)
 		}
-		if fail, _ := runHistory(out, 0, *seed, *prof, *maxSteps, &rp); fail != "" {
+		if fail, _ := runHistory(out, 0, *seed, *prof, *maxSteps, &rp, *scratch); fail != "" {
 			fmt.Fprintf(os.Stderr, "replay: %s\n", fail)
 		}
 		return
@@ -849,7 +1329,7 @@ func main() {
 		if *only >= 0 && *only != i {
 			continue
 		}
-		fail, _ := runHistory(out, i, s, *prof, *maxSteps, nil)
+		fail, _ := runHistory(out, i, s, *prof, *maxSteps, nil, *scratch)
 		if fail != "" {
 			fmt.Fprintf(os.Stderr, "history %d: %s\n", i, fail)
 		}
